@@ -1,7 +1,7 @@
 (* C19: lemmas lifting the boolean table checks (decided by vm_compute over the generated,
    finite tables) to the quantified statements. *)
 From Coq Require Import List String ZArith NArith Bool Lia.
-Require Import V.Ref.RefLayout V.Spec.AbiTables.
+Require Import V.Ref.RefLayout V.Spec.AbiTables V.Model.ErrFmt V.Proofs.ErrFmtP.
 Import ListNotations.
 Open Scope string_scope.
 
@@ -46,6 +46,28 @@ Proof.
   intros v s Hs. destruct (to_str_sem_arm _ _ _ _ Hs) as [c [Hin Hc]].
   rewrite forallb_forall in H. specialize (H _ Hin). unfold arm_ok in H. cbn [fst snd] in H.
   rewrite Hc in H. destruct (const_val tab s) as [sv|]; [|discriminate]. apply Z.eqb_eq in H. now subst.
+Qed.
+
+(* *_to_string: the identifier of an exported constant with the argument's value, or the
+   prefix followed by a hexadecimal rendering that reads back to the argument *)
+Lemma to_string_ok_spec tab fns sfns :
+  forallb (fn_ok tab fns) symbolic_fns = true -> forallb (wrapper_ok fns) sfns = true ->
+  forall name ty inner prefix, In (name, (ty, (inner, prefix))) sfns ->
+  forall v, (0 <= v < 2 ^ 64)%Z ->
+  exists text, to_string_sem tab fns (ty, (inner, prefix)) v = Some text /\
+    (const_val tab text = Some v \/
+     (text = prefix ++ "(" ++ hex0xl (Z.to_N v) ++ ")" /\ value_of 16 (hexl (Z.to_N v)) 0 = Z.to_N v))%string.
+Proof.
+  intros Hf Hw name ty inner prefix Hin v Hv.
+  rewrite forallb_forall in Hw. specialize (Hw _ Hin). unfold wrapper_ok in Hw.
+  apply andb_prop in Hw. destruct Hw as [Hsym _].
+  apply existsb_exists in Hsym. destruct Hsym as [f [Hfin Heq]]. apply String.eqb_eq in Heq. subst f.
+  destruct (to_str_ok_spec tab fns Hf inner Hfin) as [ty' [arms [El Hs]]].
+  unfold to_string_sem. rewrite El.
+  destruct (to_str_sem tab arms v) as [s|] eqn:Es.
+  - exists s. split; [reflexivity|]. left. apply Hs, Es.
+  - eexists. split; [reflexivity|]. right. split; [reflexivity|].
+    apply hexl_roundtrip. change (2 ^ 64)%N with (Z.to_N (2 ^ 64)). apply Z2N.inj_lt; lia.
 Qed.
 
 (* layouts *)
